@@ -133,7 +133,8 @@ func (s *BadSmellListener) EnterInterfaceMethodDeclaration(ctx *InterfaceMethodD
 		}
 	}
 
-	methodBSInfo := bs_domain.NewMethodBadSmellInfo()
+	// default and static interface methods have a body: count its if / switch statements as for class methods
+	methodBSInfo := buildMethodBodyBSInfo(ctx.InterfaceCommonBodyDeclaration().(*InterfaceCommonBodyDeclarationContext).MethodBody(), bs_domain.NewMethodBadSmellInfo())
 
 	position := core_domain.CodePosition{
 		StartLine:         startLine,
@@ -258,7 +259,10 @@ func getModifier(ctx *MethodDeclarationContext) string {
 }
 
 func buildMethodBSInfo(context *MethodDeclarationContext, bsInfo bs_domain.FunctionBSInfo) bs_domain.FunctionBSInfo {
-	methodBody := context.MethodBody()
+	return buildMethodBodyBSInfo(context.MethodBody(), bsInfo)
+}
+
+func buildMethodBodyBSInfo(methodBody IMethodBodyContext, bsInfo bs_domain.FunctionBSInfo) bs_domain.FunctionBSInfo {
 	blockContext := methodBody.GetChild(0)
 	if reflect.TypeOf(blockContext).String() == "*parser.BlockContext" {
 		blcStatement := blockContext.(*BlockContext).AllBlockStatement()
